@@ -330,7 +330,7 @@ var ruleCtxZone = &Rule{
 				}
 				return len(c.Call.Args) == 1 && c.Call.Args[0] == ssa.Value(ctxP)
 			}
-			consults := 0
+			consults, placed := 0, 0
 			ord := 0
 			for _, b := range fn.Blocks {
 				for _, ins := range b.Instrs {
@@ -353,6 +353,9 @@ var ruleCtxZone = &Rule{
 					key := fmt.Sprintf("%s: location of %s #%d", fnName(fn), what, ord)
 					if isCtxLoc(loc) {
 						consults++
+						if what == "time.Date" {
+							placed++
+						}
 						out.ok(key, p.pos(c.Pos()), fnName(fn), "TZFromContext(ctx) itself")
 					} else {
 						out.viol(key, p.pos(c.Pos()), fnName(fn), "the wall-clock fields are interpreted in a location that is not the context's zone itself ("+trunc(loc.String(), 60)+"): around daylight-saving changes the offset of a different instant is applied")
@@ -376,12 +379,45 @@ var ruleCtxZone = &Rule{
 							}
 						}
 					}
-					if consults > 0 || delegates {
+					if placed > 0 || delegates {
 						out.ok(key, p.pos(fn.Pos()), fnName(fn), "the zone-less value is placed in TZFromContext(ctx)")
+					} else if consults > 0 {
+						out.viol(key, p.pos(fn.Pos()), fnName(fn), "a wall-clock value is made zone-aware by converting an instant into the context zone (Time.In) instead of interpreting its fields in that zone (time.Date(…, TZFromContext(ctx))): the offset is looked up for a different instant, wrong around daylight-saving changes")
 					} else {
 						out.viol(key, p.pos(fn.Pos()), fnName(fn), "a zone-less value becomes zone-aware without the context zone being consulted")
 					}
 				}
+			}
+		}
+		// the context constructor stores every non-nil zone
+		for fn := range p.AllFns {
+			if fnPkgPath(fn) != pkgTypes || fn.Blocks == nil || fn.Signature.Recv() != nil || fn.Signature.Params().Len() != 2 || fn.Signature.Results().Len() != 1 {
+				continue
+			}
+			if !isContextType(fn.Signature.Params().At(0).Type()) || !isContextType(fn.Signature.Results().At(0).Type()) {
+				continue
+			}
+			locP := fn.Params[1]
+			if n := namedOf(locP.Type()); n == nil || n.Obj().Name() != "Location" {
+				continue
+			}
+			key := fnName(fn) + " stores every zone it is given"
+			bad := ""
+			stores := 0
+			for _, r := range expandedReturns(fn) {
+				v := stripConv(r.Results[0])
+				if c, ok := v.(*ssa.Call); ok && calleeQualified(&c.Call) == "context.WithValue" {
+					stores++
+					continue
+				}
+				if isNil, _ := nilFact(r.Facts, locP); !isNil {
+					bad = "return at " + p.pos(r.Instr.Pos()) + " hands the context back unchanged although the zone may be non-nil"
+				}
+			}
+			if bad == "" && stores > 0 {
+				out.ok(key, p.pos(fn.Pos()), fnName(fn), "the context is returned unchanged only for a nil zone")
+			} else if bad != "" {
+				out.viol(key, p.pos(fn.Pos()), fnName(fn), bad+": a context derived from one that already carries a zone keeps the parent's zone")
 			}
 		}
 		out.Counts["zone_consulting_calls"] = n
